@@ -3,8 +3,22 @@
 extern "Rust" {
     fn fi_verif_replay_mutex(name: &str, cfg: u32, p: u32, s: &mut common::ScriptSrc<'_>) -> bool;
     fn fi_verif_replay_sem(name: &str, cfg: u32, p: u32, s: &mut common::ScriptSrc<'_>) -> bool;
+    fn fi_verif_replay_list(name: &str, cfg: u32, p: u32, s: &mut common::ScriptSrc<'_>) -> bool;
+    fn fi_verif_replay_heap(name: &str, cfg: u32, p: u32, s: &mut common::ScriptSrc<'_>) -> bool;
+    fn fi_verif_replay_ring(name: &str, cfg: u32, p: u32, s: &mut common::ScriptSrc<'_>) -> bool;
+    fn fi_verif_replay_event(name: &str, cfg: u32, p: u32, s: &mut common::ScriptSrc<'_>) -> bool;
+    fn fi_verif_replay_oneshot(name: &str, cfg: u32, p: u32, s: &mut common::ScriptSrc<'_>) -> bool;
+    fn fi_verif_replay_oneshot_bc(name: &str, cfg: u32, p: u32, s: &mut common::ScriptSrc<'_>) -> bool;
 }
 
 fn replay_dispatch(name: &str, cfg: u32, p: u32, s: &mut common::ScriptSrc<'_>) -> bool {
-    unsafe { fi_verif_replay_mutex(name, cfg, p, s) || fi_verif_replay_sem(name, cfg, p, s) }
+    unsafe { fi_verif_replay_mutex(name, cfg, p, s) || fi_verif_replay_sem(name, cfg, p, s)
+            || fi_verif_replay_list(name, cfg, p, s)
+            || fi_verif_replay_heap(name, cfg, p, s)
+            || fi_verif_replay_ring(name, cfg, p, s)
+            || fi_verif_replay_event(name, cfg, p, s)
+            || fi_verif_replay_oneshot(name, cfg, p, s)
+            || fi_verif_replay_oneshot_bc(name, cfg, p, s)
+            || life::replay(name, cfg, p, s)
+    }
 }
